@@ -49,6 +49,8 @@ def main():
             ent[key] = {'counts': sorted(i[0] for i in items),
                         'totals': sorted(i[5] for i in items),
                         'conditions': sorted({c for i in items for c in i[1]}),
+                        'twins': sorted((sorted(i[1]) for i in items),
+                                        key=lambda t: (len(t), t)),
                         'statement': items[0][3]}
             if not write:
                 print(f'{pid} {key.split("::")[0]} {key.split("::")[1]}:'
